@@ -603,4 +603,58 @@ def cgIter (ps : List Patch) (ords : List (List Nat)) (mats : List (List (List (
 
 end Solve
 
+
+/-! ### PCG with the Jacobi preconditioner (type-1 main diagonal) on the distributed operator -/
+
+section PCG
+variable [Neg α]
+
+structure PCGState (α : Type) where
+  x : List (List α)
+  r : List (List α)
+  p : List (List α)
+  rz : α
+
+/-- `z = D⁻¹ r` with the synchronised inverse diagonal of `JacobiPrecond` -/
+def jacApply (ps : List Patch) (ords : List (List Nat)) (mats : List (List (List (Nat × α))))
+    (rs : List (List α)) : List (List α) :=
+  List.zipWith compMul rs (ginvDiag ps ords mats)
+
+def pcgInit (ps : List Patch) (ords : List (List Nat)) (mats : List (List (List (Nat × α))))
+    (bs xs : List (List α)) : PCGState α :=
+  let r := gdefect ps ords mats bs xs
+  let z := jacApply ps ords mats r
+  { x := xs, r := r, p := z, rz := gdot ps r z }
+
+/-- `q = A p; a = rz / p·q; x += a p; r -= a q; z = D⁻¹ r; rz' = r·z; p = z + (rz'/rz) p` -/
+def pcgStep (ps : List Patch) (ords : List (List Nat)) (mats : List (List (List (Nat × α))))
+    (st : PCGState α) : PCGState α :=
+  let q := gapply ps ords mats st.p
+  let a := st.rz / gdot ps st.p q
+  let x := List.zipWith (fun x p => vAxpy x p a) st.x st.p
+  let r := List.zipWith (fun r q => vAxpy r q (-a)) st.r q
+  let z := jacApply ps ords mats r
+  let rz := gdot ps r z
+  let p := List.zipWith (fun z p => vAxpy z p (rz / st.rz)) z st.p
+  { x := x, r := r, p := p, rz := rz }
+
+def pcgIter (ps : List Patch) (ords : List (List Nat)) (mats : List (List (List (Nat × α)))) :
+    Nat → PCGState α → PCGState α
+  | 0, st => st
+  | k + 1, st => pcgIter ps ords mats k (pcgStep ps ords mats st)
+
+end PCG
+
+/-! ### Floating point level of the global dot product: `triple_dot` accumulates `r += f[i]*x[i]*y[i]`
+(three roundings per entry), the allreduce adds the per-rank values one by one (in some order). -/
+
+def tripleDotFl (fl : α → α) (f x y : List α) : α :=
+  ((List.zipWith (fun a b => (a, b)) (List.zipWith (fun a b => (a, b)) f x) y)).foldl
+    (fun acc t => fl (acc + fl (fl (t.1.1 * t.1.2) * t.2))) 0
+
+/-- `Gate::dot` in floating point; `perm` = the order in which the allreduce combines the ranks -/
+def gdotFl (fl : α → α) (ps : List Patch) (xs ys : List (List α)) (order : List Nat) : α :=
+  (order.map fun r => tripleDotFl fl (freqs (ps.getD r default)) (xs.getD r []) (ys.getD r [])).foldl
+    (fun acc l => fl (acc + l)) 0
+
 end FeatModel.Dist
